@@ -265,7 +265,7 @@ func (w *Worker) diagnoseHang(c Case) Result {
 	g1, g2 = filter(g1), filter(g2)
 	allBlocked := len(g2) > 0
 	for _, g := range g2 {
-		if !blockedState(g.State) {
+		if !blockedState(g.State) && !w.peerWait(g) {
 			allBlocked = false
 		}
 	}
@@ -288,6 +288,21 @@ func (w *Worker) diagnoseHang(c Case) Result {
 		return r
 	}
 	return InconclusiveR(fmt.Sprintf("watchdog fired after %s without a deadlock certificate (grip goroutines=%d, allBlocked=%v, progress %d->%d)", w.Prop.CaseTimeout, len(g2), allBlocked, p1, p2))
+}
+
+// peerWait: a goroutine in a select inside one of the property's PeerWaitFrames
+// (a gRPC stream receive or flow-control wait whose peer lives in this process)
+// can only be woken by another goroutine of the process; it counts as blocked.
+func (w *Worker) peerWait(g Goroutine) bool {
+	if !strings.HasPrefix(g.State, "select") || len(g.Frames) == 0 {
+		return false
+	}
+	for _, p := range w.Prop.PeerWaitFrames {
+		if strings.HasPrefix(g.Frames[0], p) {
+			return true
+		}
+	}
+	return false
 }
 
 // GripGoroutineCount is used by leak monitors.
